@@ -90,7 +90,7 @@ def runRenderCase (cfgF pathF lineF srcF envF : String) : String :=
      | some env =>
        let path := hexDecode pathF
        let cfg : Cfg := { strict := strict, path := path, delims := delims }
-       (run stdPrims stdOut cfg (fsOfList files) 8 (hexDecode srcF) lineF.toNat! env).show path
+       (runStd cfg (fsOfList files) (hexDecode srcF) lineF.toNat! env).show path
      | none => "unmodelled env")
   | _, _ => "unmodelled parse"
 
@@ -157,7 +157,7 @@ def runInclCase (cfgF pathF lineF srcF envF mode : String) : String :=
        match regs.foldl step (.ok []) with
        | .ok cache =>
          let fs : FS := { read := (fsOfList disk).read, cache := fun p => (cache.find? (fun e => e.1 == p)).map (·.2) }
-         (run stdPrims stdOut cfg fs 8 src line env).show path
+         (runStd cfg fs src line env).show path
        | .unmodelled w => "unmodelled " ++ w
        | _ => "panic")
   | _, _ => "unmodelled parse"
@@ -195,7 +195,7 @@ def runWritesCase (cfgF pathF lineF srcF envF : String) : String :=
         | .panic _ => "panic"
         | .unmodelled w => "unmodelled " ++ w
         | .ok root =>
-          let p := frender stdPrims stdOut cfg (fsOfList files) 8 root env
+          let p := frender stdPrims stdOut cfg (fsOfList files) maxIncludeDepth root env
           let calls := showCalls p.calls ++ " " ++ showFaultLocs path p.faultErrs
           (match p.runPure with
            | (_, .ok _) => "ok " ++ calls
